@@ -5,7 +5,7 @@ from hypothesis import strategies as st
 from .. import gen
 from ..common import graph_from_json, inconclusive, invalid_config, ok, violation
 from ..models import expand_nodes, materialize_kwargs, run_model, solver_artifact, timed_out
-from ..oracle.l1flow import closest_flow_cost
+from ..oracle.l1flow import closest_flow_cost, grid_of
 
 ID = "C16"
 LEVEL = "exploration"
@@ -201,8 +201,11 @@ def run_case(case, tier="quick"):
         free_cost = {e: 0 for e in H.edges()}
         for v in x:
             free_cost[ne[v]] = 1
-        d0 = closest_flow_cost(H, {e: (fx.get(e, 0)) for e in H.edges()}, free_cost, [ne[v][0] for v in starts], [ne[v][1] for v in ends], one_sided=False)
-        if d0 is None or d0 > tol:
+        # the corrected values need not lie on the input's 0.25 grid (second stage of few_flow_values_epsilon): use their own grid,
+        # or the finest one with a tolerance that covers the rounding
+        gx = grid_of(list(fx.values()))
+        d0 = closest_flow_cost(H, {e: (fx.get(e, 0)) for e in H.edges()}, free_cost, [ne[v][0] for v in starts], [ne[v][1] for v in ends], one_sided=False, grid=gx or (1 << 16))
+        if d0 is None or d0 > (tol if gx else tol + len(fx) / float(1 << 15)):
             return violation("not_conserving", f"node values {x} cannot be realised by a conserving edge flow (distance {d0})", labels, facts=facts)
     # reported error
     err_re = sum(abs(f[el] - x[el]) for el in f if el not in ignored and scaling.get(el, 1) != 0)
